@@ -598,6 +598,175 @@ theorem contig_pairwise {gap : Int} (hg : 0 ≤ gap) : ∀ (cs : List Child), Co
     exact contig_pairwise hg rest hrest i j ci cj (by omega) (by simpa using hi) (by simpa using hj)
   | f :: rest, _, i + 1, 0, _, _, hij, _, _ => by omega
 
+/-! ### the scroll state left by Draw describes what was drawn -/
+
+theorem retop_hit (g : Int) (hg : 0 ≤ g) : ∀ (cs : List Child) (k : Nat) (c : Child) (i0 top : Nat) (off : Int), Contig g cs →
+    cs[k]? = some c → Covers g c → retop g cs i0 (top, off) = (uadd top (i0 + k), - c.row)
+  | [], _, _, _, _, _, _, h, _ => by simp at h
+  | a :: rest, 0, c, i0, top, off, hc, hk, hcov => by
+    simp at hk; subst hk
+    have hcov' : a.row ≤ 0 ∧ a.row + (a.height : Int) + g > 0 := ⟨hcov.1, by have := hcov.2; omega⟩
+    simp only [retop, hcov', and_self, if_true, Nat.add_zero]
+    apply retop_none
+    intro d hd hcd
+    obtain ⟨m, hm⟩ := List.getElem?_of_mem hd
+    have := contig_get_gap hg rest a hc (m + 1) d (by simpa using hm) (by omega)
+    unfold Covers at hcd
+    omega
+  | a :: rest, k + 1, c, i0, top, off, hc, hk, hcov => by
+    have hge := contig_get_gap hg rest a hc (k + 1) c hk (by omega)
+    have hna : ¬ (a.row ≤ 0 ∧ a.row + (a.height : Int) + g > 0) := by
+      unfold Covers at hcov; omega
+    have hrest : Contig g rest := by
+      cases rest with
+      | nil => trivial
+      | cons d r => exact hc.2
+    simp only [retop, hna, if_false]
+    rw [retop_hit g hg rest k c (i0 + 1) top off hrest (by simpa using hk) hcov]
+    congr 2; omega
+
+/-- **Anchor**: after a `Draw` of the repaired code (gap ≥ 0, state satisfying the invariant) the
+    scroll state is the anchor of the layout it returned: a child that covers row 0 (together with the
+    gap below it) is item `top` and starts `offset` rows above row 0. -/
+theorem draw_anchor (cfg : Cfg) (hgap : 0 ≤ cfg.gap) (hs : List Nat) (hlen : hs.length < 2 ^ 63) (s : St) (W H : Nat)
+    (hW : W ≠ 65535) (hH : H ≠ 65535) (hi : Inv s) (s' : St) (cs : List Child)
+    (he : draw Facts.fixed cfg hs s W H = .ok (s', cs)) (k : Nat) (c : Child) (hk : cs[k]? = some c)
+    (hcov : Covers cfg.gap c) : s'.top = c.idx ∧ s'.offset = - c.row := by
+  obtain ⟨sc, ah2, s2, cs0, cs1, cs2, s3, hsc, hsu, hcs1, dd1, dd2, hhead, hrv, c2, h2, hd2, t3, o3, cu3, pe3, len2, w3,
+    k2, k1, k6, htop2, hcur, hwants, hpend, st3, hlen0, hdraw⟩ := draw_phases cfg hs hlen s W H hW hH hi
+  rw [hdraw] at he
+  simp only [Except.ok.injEq, Prod.mk.injEq] at he
+  obtain ⟨e1, e2⟩ := he
+  subst e2
+  rw [← e1]
+  have hr := retop_hit cfg.gap hgap cs2 k c 0 s3.top s3.offset c2 hk hcov
+  have hklt : k < cs2.length := getElem?_lt hk
+  obtain ⟨f, rest, hcs⟩ : ∃ f rest, cs2 = f :: rest := by
+    cases cs2 with
+    | nil => simp at hklt
+    | cons f rest => exact ⟨f, rest, rfl⟩
+  have hfi : f.idx = s2.top := hd2 f (by rw [hcs]; rfl)
+  have hci := contig_get_idx rest f (by rw [← hcs]; exact c2) k c (by rw [← hcs]; exact hk)
+  have hcn : c.idx < hs.length := getElem?_lt (h2 c (List.mem_of_getElem? hk))
+  have hua : uadd s3.top (0 + k) = c.idx := by
+    unfold uadd U; rw [t3]; omega
+  rw [hr, hua]
+  exact ⟨rfl, rfl⟩
+
+/-- **No blank rows above the first child**: the first child returned by a `Draw` of the repaired
+    code (gap ≥ 0, invariant) starts at or above row 0. -/
+theorem draw_first_row (cfg : Cfg) (hgap : 0 ≤ cfg.gap) (hs : List Nat) (hlen : hs.length < 2 ^ 63) (s : St) (W H : Nat)
+    (hW : W ≠ 65535) (hH : H ≠ 65535) (hi : Inv s) (s' : St) (cs : List Child)
+    (he : draw Facts.fixed cfg hs s W H = .ok (s', cs)) (f : Child) (hf : cs.head? = some f) : f.row ≤ 0 := by
+  obtain ⟨sc, ah2, s2, cs0, cs1, cs2, s3, hsc, hsu, hcs1, dd1, dd2, hhead, hrv, c2, h2, hd2, t3, o3, cu3, pe3, len2, w3,
+    k2, k1, k6, htop2, hcur, hwants, hpend, st3, hlen0, hdraw⟩ := draw_phases cfg hs hlen s W H hW hH hi
+  rw [hdraw] at he
+  simp only [Except.ok.injEq, Prod.mk.injEq] at he
+  obtain ⟨_, e2⟩ := he
+  subst e2
+  obtain ⟨p1, p2, p3, p4⟩ := prologue_spec sc
+  -- the first child before the wants-cursor shift
+  have h1 : ∀ g, cs1.head? = some g → g.row ≤ 0 := by
+    intro g hg
+    by_cases hpos : (prologue sc).1 > 0
+    · -- upward scroll: the inserted head
+      have ht0 := (p4 hpos).1
+      have htn : sc.top < hs.length := by omega
+      have hU : sc.top < U := by have := hi.top_ok; unfold U; omega
+      have hu := usub_one ht0 hU
+      obtain ⟨h, e1, _, e3⟩ := insertLoop_exact cfg.gap hs sc.top (sc.top - 1) (prologue sc).1 [] (by omega) (by omega) (by omega) hpos
+      have hsu' := hsu
+      unfold scrollUp at hsu'
+      rw [if_pos hpos, p1] at hsu'
+      simp only [] at hsu'
+      split at hsu'
+      · cases hsu'
+      · simp only [Except.ok.injEq, Prod.mk.injEq] at hsu'
+        obtain ⟨_, _, ecs⟩ := hsu'
+        obtain ⟨t, ht⟩ := drawDown_prefix cfg.gap s2.wantsCursor s2.cursor H (hs.drop sc.top) sc.top ah2 cs0
+        rw [hcs1, ht, ← ecs] at hg
+        unfold insertChildren at hg
+        rw [hu] at hg
+        simp only [] at hg
+        cases hcs : (insertLoop true cfg.gap hs sc.top (sc.top - 1) (prologue sc).1 []).2.2 with
+        | nil => rw [hcs] at e1; cases e1
+        | cons a rest =>
+          rw [hcs] at e1 hg
+          simp only [List.head?_cons, Option.some.injEq] at e1
+          split at hg
+          · simp only [restack, List.cons_append, List.head?_cons, Option.some.injEq] at hg
+            rw [← hg]; exact Int.le_refl 0
+          · rename_i hre
+            simp only [List.cons_append, List.head?_cons, Option.some.injEq] at hg
+            rw [← hg, e1]
+            show (insertLoop true cfg.gap hs sc.top (sc.top - 1) (prologue sc).1 []).2.1 ≤ 0
+            rcases e3 with h' | h'
+            · exact h'
+            · have : ¬ ((insertLoop true cfg.gap hs sc.top (sc.top - 1) (prologue sc).1 []).2.1 > 0) := fun hp => hre ⟨h', hp⟩
+              omega
+    · have hsu' := hsu
+      unfold scrollUp at hsu'
+      rw [if_neg hpos] at hsu'
+      simp only [Except.ok.injEq, Prod.mk.injEq] at hsu'
+      obtain ⟨ea, _, ecs⟩ := hsu'
+      rw [hcs1, ← ecs] at hg
+      have := (drawDown_head _ _ _ _ _ _ _ g hg).2
+      omega
+  -- the shift
+  unfold reveal at hrv
+  split at hrv
+  · split at hrv
+    · cases hrv
+    · rename_i ch hcc
+      simp only [Except.ok.injEq, Prod.mk.injEq] at hrv
+      obtain ⟨ecs, _⟩ := hrv
+      rw [← ecs] at hf
+      split at hf
+      · rename_i hb
+        rw [List.head?_map] at hf
+        cases hh : cs1.head? with
+        | none => rw [hh] at hf; cases hf
+        | some g =>
+          rw [hh] at hf; simp only [Option.map_some, Option.some.injEq] at hf
+          have := h1 g hh
+          rw [← hf]; show g.row + ((H : Int) - (ch.row + (ch.height : Int))) ≤ 0; omega
+      · split at hf
+        · rename_i hab
+          rw [List.head?_map] at hf
+          cases hh : cs1.head? with
+          | none => rw [hh] at hf; cases hf
+          | some g =>
+            rw [hh] at hf; simp only [Option.map_some, Option.some.injEq] at hf
+            -- the cursored child is at or below the head
+            have hle : s2.top ≤ s2.cursor := by
+              have := hi.wants_ok (by rw [← hwants]; assumption)
+              rw [hcur]; omega
+            have hc63 : s2.cursor < 2 ^ 63 := by rw [hcur]; exact hi.cur_ok
+            rcases cursorChild_ok cs1 s2.cursor s2.top hle hc63 with ⟨c', hcg, e⟩ | ⟨_, e⟩
+            · rw [e] at hcc
+              simp only [Except.ok.injEq, Option.some.injEq] at hcc
+              subst hcc
+              obtain ⟨f1, tail, hcs1f⟩ : ∃ f1 tail, cs1 = f1 :: tail := by
+                cases hcs1' : cs1 with
+                | nil => rw [hcs1'] at hh; cases hh
+                | cons f1 tail => exact ⟨f1, tail, rfl⟩
+              have hg1 : g = f1 := by rw [hcs1f] at hh; simpa using hh.symm
+              have hrowle : g.row ≤ c'.row := by
+                by_cases hz : s2.cursor - s2.top = 0
+                · rw [hz, hcs1f] at hcg; simp at hcg; rw [hg1, hcg]; exact Int.le_refl _
+                · have := contig_get_gap hgap tail f1 (by rw [← hcs1f]; exact dd1) (s2.cursor - s2.top) c'
+                    (by rw [← hcs1f]; exact hcg) (by omega)
+                  rw [hg1]; omega
+              rw [← hf]; show g.row + (- c'.row) ≤ 0; omega
+            · rw [e] at hcc; cases hcc
+        · exact h1 f hf
+    · simp only [Except.ok.injEq, Prod.mk.injEq] at hrv
+      obtain ⟨ecs, _⟩ := hrv
+      rw [← ecs] at hf; exact h1 f hf
+  · simp only [Except.ok.injEq, Prod.mk.injEq] at hrv
+    obtain ⟨ecs, _⟩ := hrv
+    rw [← ecs] at hf; exact h1 f hf
+
 /-! ### the selection is shown — from ANY scroll state -/
 
 /-- After `SetCursor(c)` (more generally `ensureScroll` with the cursor at an existing item of height
